@@ -277,7 +277,7 @@ class Recorder:
 ORDER_GS = ["gd", "gw", "rd", "pi", "dr", "rp", "ir", "inf", "cr", "ge", "gst", "cc", "ev", "tr", "gi", "hr", "bm", "hi", "rz"]
 
 
-def run_sim(cfg, max_days=None, fail_gd_on=None):
+def run_sim(cfg, max_days=None, fail_gd_on=None, keep=False, hook=None):
     """returns dict(days=[...], resets=[...], error=None|info).  A day: dict(line tokens, expected tokens)."""
     try:
         m = sim.build_model(cfg)
@@ -306,6 +306,7 @@ def run_sim(cfg, max_days=None, fail_gd_on=None):
         # ---- inputs
         clock = [str(tsc), str(season), eZ(ic.dap), eB(ic.crop_mature), eB(ic.harvest_flag),
                  str(len(plant))] + [str(x) for x in plant] + [str(len(harv))] + [str(x) for x in harv]
+        clock0 = list(clock)
         clock += [eB(clock_struct.sim_off_season), eZ(clock_struct.evap_time_steps)]
         wt = int(param_struct.water_table)
         gwv = float(param_struct.z_gw[tsc]) if wt == 1 else 0.0
@@ -317,6 +318,8 @@ def run_sim(cfg, max_days=None, fail_gd_on=None):
         par += [ENC[t](getattr(param_struct.Soil, n)) for n, t in SOIL_F]
         par += [str(wt), eF(param_struct.CO2.current_concentration), eF(param_struct.CO2.ref_concentration)]
         pre = enc_state(ic)
+        if hook is not None:
+            d["hook"] = hook(param_struct, clock_struct, season)
         nfinal0 = len(outputs.final_stats)
         rec.day = d
         rec.fail_gd = fail_gd_on is not None and len(days) == fail_gd_on
@@ -330,6 +333,14 @@ def run_sim(cfg, max_days=None, fail_gd_on=None):
                 for name, short, args, res in SPEC[1:]:
                     line += last[short]
                 malformed.append({"line": " ".join(line), "exp": ["N"], "tsc": tsc})
+            elif keep:
+                malformed.append({"clock0": clock0, "weather": weather, "pre": pre, "hook": d.get("hook"), "tsc": tsc, "season": season,
+                                  "exc": {"type": "ZeroDivisionError"}})
+            raise
+        except Exception as e:
+            if keep:    # a process raised: the concrete model must be undefined on this day
+                malformed.append({"clock0": clock0, "weather": weather, "pre": pre, "hook": d.get("hook"), "tsc": tsc, "season": season,
+                                  "exc": sim.exc_info(e)})
             raise
         finally:
             rec.day = None
@@ -347,6 +358,8 @@ def run_sim(cfg, max_days=None, fail_gd_on=None):
             exp += ["S", eZ(row[0]), str(int((pd.Timestamp(row[2]) - start).days)), eZ(row[3]), eF(row[4]), eF(row[5]), eF(row[6]), eF(row[7])]
         else:
             exp += ["N"]
+        if keep:
+            d["clock0"] = clock0; d["weather"] = weather; d["pre"] = pre; d["exp_core"] = " ".join(exp).split(); d["res_keep"] = dict(d["res"])
         # the arguments each process received
         gs = "gd" in d["args"]
         for name, short, args, res in SPEC:
